@@ -23,6 +23,8 @@ PROPS["C09"] = dict(
          "distinct by (source kind, target kind, option set, attribute shape: AS_PATH segment mix, private-AS positions, own-AS count, 4-octet ASNs, next-hop form, "
          "MED/LOCAL_PREF/RR attributes/communities, unknown-attribute flag classes)",
     assumptions=["the AS the router presents on a session is the local-as option if set, the confederation identifier towards peers outside the confederation, else the global AS",
+                 "e2e: half of the odd-numbered neighbours run IPv6 sessions; after the first judgement 2-3 neighbours lose their session and the same speaker (same AS, router id, neighbour address) "
+                 "comes back over ANOTHER local address of the router (IPv4 resp. IPv6); what they are sent then is judged against the local address of THAT session",
                  "the peer kind of a neighbour is the type of the actual session: one neighbour in five is configured WITHOUT peer-as (not inside a confederation), its type and AS are known only "
                  "from the peer's OPEN (State.PeerType / State.PeerAs; Config.PeerType stays EXTERNAL); units that run no session reproduce what fsm.stateChange records at ESTABLISHED",
                  "AS_PATHs are compared up to segmentation of adjacent AS_SEQUENCE / AS_CONFED_SEQUENCE segments (towards iBGP exact); no produced segment may be empty or longer than 255",
@@ -59,6 +61,8 @@ PROPS["C09"] = dict(
                   "e2e:c09:rule:unknown-nontransitive-dropped", "e2e:c09:rule:unknown-transitive-passed-on"]
                + ["%speer-as-unset:%s:%s" % (u, d, k) for u in ("", "e2e:c09:") for d in ("source", "target") for k in ("ebgp", "ibgp", "rrclient")]
                + ["peer-as-unset:inbound:%s" % k for k in ("ebgp", "ibgp", "rrclient")]
+               + ["e2e:c09:rehomed:sessions:%s" % k for k in ("ebgp", "ibgp", "rrclient", "rsclient", "ipv4", "ipv6")]
+               + ["e2e:c09:rehomed:judged:%s" % k for k in ("ebgp", "ibgp", "rrclient", "rsclient")] + ["e2e:c09:rehomed:routes_reached"]
                + ["e2e:c09:pair:%s->%s" % (a, b) for a in ("local", "ebgp", "ibgp", "rrclient") for b in ("ebgp", "ibgp", "rrclient")] + ["e2e:c09:pair:rsclient->rsclient"]
                + ["e2e:c09:reached:%s->%s" % (a, b) for a in ("local", "ebgp", "ibgp", "rrclient") for b in ("ebgp", "ibgp", "rrclient") if (a, b) != ("ibgp", "ibgp")]
                + ["e2e:c09:reached:rsclient->rsclient"],
